@@ -45,9 +45,17 @@ func c05Gen(r *rand.Rand, n int, tier string) []string {
 			case 4: // cycle: ancestor placed under a descendant
 				pairs := [][2]string{{"a", "c"}, {"a", "b"}, {"R", "c"}, {"b", "c"}, {"a", "d"}, {"R", "d"}}
 				p := pick(r, pairs)
-				ops = append(ops, "ep:"+hxs(p[0])+":"+hxs(p[1])+":"+nt())
+				// the way a move / mirror sends it (tombstone 0 and other points next to the node type), or bare
+				pts := nt()
+				if r.Intn(2) == 0 {
+					pts = tomb(0) + "+" + nt()
+					if r.Intn(2) == 0 {
+						pts += "+" + val("4607182418800017408")
+					}
+				}
+				ops = append(ops, "ep:"+hxs(p[0])+":"+hxs(p[1])+":"+pts)
 			case 5: // new edge without node type
-				ops = append(ops, "ep:"+hxs(pick(r, []string{"e", "f"}))+":"+hxs(pick(r, chain))+":"+tomb(0))
+				ops = append(ops, "ep:"+hxs(pick(r, []string{"e", "f"}))+":"+hxs(pick(r, chain))+":"+tomb(0)+pick(r, []string{"", "+" + val("4607182418800017408")}))
 			case 6: // legal mirror (not a cycle)
 				ops = append(ops, "ep:"+hxs("c")+":"+hxs(pick(r, []string{"d", "a", "R"}))+":"+nt())
 			default: // good writes after refused ones
